@@ -177,6 +177,42 @@ def _merge_ctr(dst, src, prefix=""):
             dst[prefix + k] = dst.get(prefix + k, 0) + v
 
 
+def history_violation(pid, rec, exe, engine, tier, log, obs):
+    """A violation that does not reproduce from its own plan in a fresh process may depend on PROCESS-WIDE state left
+    behind by earlier runs of the same worker (e.g. a static cache introduced by a change). That is still deterministic:
+    replay the worker's run history i0..idx in one fresh process, twice; shrink the history from the front."""
+    if rec.chunk_i0 is None or rec.base is None or rec.index <= rec.chunk_i0:
+        return None
+
+    def reproduces(i0):
+        a = runner.run_history(exe, engine, rec.base, i0, rec.index, tier)
+        return a is not None and a.verdict == "VIOL" and a.vclass == rec.vclass
+
+    if not (reproduces(rec.chunk_i0) and reproduces(rec.chunk_i0)):
+        return None
+    # shortest suffix of the history that still reproduces (geometric search, then refine)
+    best = rec.chunk_i0
+    k = 1
+    while rec.index - k > rec.chunk_i0:
+        if reproduces(rec.index - k):
+            best = rec.index - k
+            break
+        k *= 2
+    os.makedirs(REPLAYS, exist_ok=True)
+    safe = re.sub(r"[^A-Za-z0-9_.-]+", "_", rec.vclass)[:80]
+    path = os.path.join(REPLAYS, "%s-%s-%d.history" % (pid, safe, rec.seed))
+    with open(path, "w") as f:
+        f.write("engine %s\nbatchreplay %d %d %d %s\nproperty %s\nexpect %s\nnote flavour=%s cache=%d worker=%s\n" %
+                (engine, rec.base, best, rec.index, tier, pid, rec.vclass, rec.flavour, rec.cache, os.path.basename(exe)))
+        f.write("note the run with index %d (seed %d) violates the property only after runs %d..%d of the same worker process: the outcome depends on "
+                "process-wide state that survives a run (fresh-process replay of the single plan gave %s)\n" % (rec.index, rec.seed, best, rec.index - 1, obs[0][:2]))
+    if not reproduces(best):
+        return None
+    log("  %s reproduces only with process history: runs %d..%d in one process (history shrunk from %d runs)" % (rec.vclass, best, rec.index, rec.index - rec.chunk_i0 + 1))
+    return {"vclass": rec.vclass, "replay": path, "seed": rec.seed,
+            "detail": "depends on process-wide state: reproduces when runs %d..%d execute in one process, not from a fresh process | %s" % (best, rec.index, rec.detail)}
+
+
 def handle_violation(pid, rec, exe, engine, tier, log, shrink=True):
     """Gate, minimise, write replay, confirm. Returns dict(vclass, replay, detail) or raises SystemExit(2)."""
     plan = runner.gen_plan(exe, engine, rec.seed, tier)
@@ -190,6 +226,9 @@ def handle_violation(pid, rec, exe, engine, tier, log, shrink=True):
         r = recs[0] if recs else None
         obs.append((r.verdict, r.vclass, r.digest) if r else ("NONE", "", ""))
     if obs[0] != obs[1] or obs[0][0] != "VIOL" or obs[0][1] != rec.vclass:
+        hist = history_violation(pid, rec, exe, engine, tier, log, obs)
+        if hist is not None:
+            return hist
         print("INFRA-ERROR nondeterministic or non-reproducible violation seed=%d batch=%s replays=%s" % (rec.seed, (rec.verdict, rec.vclass, rec.digest), obs),
               flush=True)
         raise SystemExit(2)
@@ -357,6 +396,20 @@ def run_check(pid, tier, seed, nworkers=None, runs_override=None):
 
 def replay(path):
     text = open(path).read()
+    mb = re.search(r"^batchreplay (\d+) (\d+) (\d+) (\S+)", text, re.M)
+    if mb:
+        mf = re.search(r"^note flavour=(\S+) cache=(\d+)", text, re.M)
+        me = re.search(r"^engine (\S+)", text, re.M)
+        mp = re.search(r"^property (\S+)", text, re.M)
+        root = build.build((mf.group(1),))
+        exe = build.worker_path(mf.group(1), int(mf.group(2)), root)
+        r = runner.run_history(exe, me.group(1), int(mb.group(1)), int(mb.group(2)), int(mb.group(3)), mb.group(4))
+        if r is not None and r.verdict == "VIOL":
+            print("replay(history): verdict=VIOL class=%s %s" % (r.vclass, r.detail[:600]))
+            print("VIOLATION property=%s replay=%s" % (mp.group(1) if mp else "?", path))
+            return 1
+        print("replay(history): no violation")
+        return 0
     m = re.search(r"^note .*worker=(\S+)", text, re.M)
     mf = re.search(r"^note flavour=(\S+) cache=(\d+)", text, re.M)
     flavour = mf.group(1) if mf else "asan"
